@@ -331,4 +331,4 @@ def run(ctx) -> None:
     ctx.exhaustive("layer-rule-sequences", MOD, "exh_shard",
                    [("rule", (i, j), lr) for i in range(m) for j in range(m)],
                    f"all LayerRule call sequences of length 2..{lr} over {m} calls, cut at the first raising call")
-    ctx.random("random-longer-sequences", MOD, "strategy", "check_case", 8000 if ctx.tier == "quick" else 200000)
+    ctx.random("random-longer-sequences", MOD, "strategy", "check_case", 8000 if ctx.tier == "quick" else 600000)
